@@ -68,7 +68,7 @@ PROPS['C16'] = dict(
     level_text='proved (Verus, paths of every length): lengths start at 0 and are never empty; path.len() <= lengths.len() on every exit (the invariant the accessors need), both indexed accesses in range; the path is only truncated, never to nothing; without a requested length one length per vertex and the total is the natural length; with a requested length L the total is EXACTLY L (for L > 0), except: L within EPSILON of the natural length or the stable quirk (last two points equal and L longer) -> natural length kept, single point -> one length. bounded stand-in: calculate_length on unadjusted paths of 0..3 vertices (4 in the thorough tier), every finite f32 coordinate and every finite requested length > 0: total distance exactly L with the two stated exceptions, lengths start at 0 / never decrease / stay finite, truncation keeps path.len() <= lengths.len()',
     level_note='assumed: Euclidean length is finite, >= 0 and 0 for identical points (its numeric value and the geometry of the natural curve are C17, not applicable); Catmull simplification bookkeeping and longer paths not decided',
     verus=[dict(unit='len', tier='quick'), dict(unit='bez', tier='quick')], kani=['curve.kc'],
-    only_prefix=['c16_'],
+    only_prefix=['c16_', 'c18_slider_path_cache'],
     kani_functions=['src/section/hit_objects/slider/curve.rs :: fn calculate_length'],
     explanation='see level_text; per-obligation statements in coverage.samples[].states',
     trusted_base=_CURVE_TRUST, assumptions=['requested length finite and > 0 (L <= 0 and non-finite L are outside the statement)'],
